@@ -1172,7 +1172,7 @@ impl Check for C09 {
         CheckInfo {
             id: "C09",
             level: "exploration",
-            rule: "one run = one history of 1-20 operations over {create, update(base object | earlier reference), promise, fulfil, read, save, failing save (unfulfilled promise / stream still in the source file / refusing sink), dirty restart} on a base file (corpus files <200 KB and generated files with classic or stream xref, compressed objects, 0-1019 junk bytes before the header), caches on or off, always closed by: replace offending objects, fulfil promises, save, reload. Checked step by step against a map model: read-your-writes, prefix preservation, every written reference (passed and handed) and every untouched object after reload. Non-trivial = at least one successful save followed by a reload comparison; distinct = hash of the operation-kind sequence and configuration",
+            rule: "one run = one history of 1-20 operations over {create, update(base object | earlier reference), promise, fulfil, read, save, failing save (unfulfilled promise / stream still in the source file / refusing sink), dirty restart} on a base file (corpus files <200 KB and generated files with classic or stream xref, compressed objects, 0-1019 junk bytes before the header), caches on or off, always closed by: replace offending objects, fulfil promises, save, reload. Checked step by step against a map model: read-your-writes, prefix preservation, every written reference (passed and handed), every untouched object and the document information (/Info with dates in every time-zone form in the history documents) after reload. Non-trivial = at least one successful save followed by a reload comparison; distinct = hash of the operation-kind sequence and configuration",
             assumptions: vec![
                 "written values: integers, reals (incl. 5e-5, 1.5e-7, 1e16, 3e38), names, strings, references, null, arrays and dictionaries up to depth 2, streams, typed pages; integers and reals of equal numeric value are identified when compared; a null dictionary entry is not written (it means absent)".into(),
                 "update targets in base files exclude page-tree nodes, object streams, cross-reference streams, non-dictionary objects, trailer-referenced objects and every object the document reads while it is opened (observed through the Log seam): overwriting those with arbitrary values makes the document itself invalid, which is the caller's doing".into(),
